@@ -831,7 +831,7 @@ func (m *LinearBlockMetadata) cleanupAfterFree() {
 	}
 
 	if m.shouldCompactFirstVector() {
-		nonNullItemCount := len(firstVector) - nullItemsCount
+		nonNullItemCount := len(firstVector) - m.firstNullItemsBeginCount - m.firstNullItemsMiddleCount
 		srcIndex := m.firstNullItemsBeginCount
 		for dstIndex := 0; dstIndex < nonNullItemCount; dstIndex++ {
 			for firstVector[srcIndex].Type == 0 {
